@@ -113,11 +113,43 @@ def check(ctx):
                         f'{fn}: the set of accepted arguments is {hull}, the property states {ranges}')
     # ---- D1: every construction site of Time, assume-guarantee
     sites = construction_entries(facts, TIME)
+
+    def is_api(fn):
+        b = facts.bodies.get(fn)
+        return b is None or b.get('vis') == 'Public' or fn.startswith('<')
     for fn in sorted(sites):
-        if fn not in N.results:
+        if fn not in N.results and is_api(fn):
+            N.run(fn)
+    # the public functions that reach a private constructing helper (through any chain of private functions)
+    from .. import shape
+    cg = shape.call_graph(facts)
+    callers = {}
+    for f_, cs in cg.items():
+        for c_ in cs:
+            callers.setdefault(c_.split('::{closure')[0], set()).add(f_.split('::{closure')[0])
+    for fn in sorted(sites):
+        if is_api(fn):
+            continue
+        seen, work = set(), [fn]
+        while work:
+            g = work.pop()
+            for c_ in callers.get(g, ()):
+                if c_ in seen:
+                    continue
+                seen.add(c_)
+                if is_api(c_):
+                    if c_ not in N.results and c_ in facts.bodies:
+                        N.run(c_)
+                else:
+                    work.append(c_)
+    # a private helper that builds a Time is judged where the public functions call it (its arguments are theirs); only a helper that no
+    # analysed function reaches is analysed on its own, with arbitrary arguments
+    reached = {o.fn.split('::{closure')[0] for o in I.obl.values() if o.kind == 'INV'}
+    for fn in sorted(sites):
+        if fn not in N.results and not is_api(fn) and fn not in reached:
             N.run(fn)
     N.check_o2()
-    ctx.rule('C08-D1 construction sites analysed', sum(sites.values()), sum(sites.values()), floor=30,
+    ctx.rule('C08-D1 construction sites analysed', sum(sites.values()), sum(sites.values()), floor=8,
              sample={'functions_constructing_Time': len(sites)})
     # field visibility: nanoseconds must not be writable outside the crate
     adt = facts.adts.get(TIME)
